@@ -261,6 +261,18 @@ pub fn run(ctx: &mut Ctx) {
     let cases: Vec<SetCase> = dsets_up_to(2, maxn).into_iter().map(SetCase).collect();
     let n = cases.len();
     ctx.run_par(&SUB_SET, cases, Some(&format!("all {} connected complete 2D D-sets with <= {} chambers x 4 geometries", n, maxn)));
+    // beyond the brute-force enumeration the D-sets come from the crate's own D-set generator (any valid
+    // D-set is a legitimate input; each is re-validated by the table model): all of them up to a larger size
+    ctx.layer("generator-dsets");
+    let deep = t.pick(15usize, 16usize);
+    let mut more: Vec<SetCase> = rust_dsymbols::generators::dset_generators::DSets::new(2, deep)
+        .map(|s| DS::from_dset(&s))
+        .filter(|ds| ds.size > maxn && ds.ops_are_involutions() && ds.is_connected())
+        .map(|ds| SetCase(ds.dset()))
+        .collect();
+    more.sort_by_key(|c| std::cmp::Reverse(c.0.size));
+    let nm = more.len();
+    ctx.run_par(&SUB_SET, more, Some(&format!("all {} D-sets with {}..={} chambers listed by the crate's D-set generator x 4 geometries", nm, maxn + 1, deep)));
     ctx.layer("random");
     ctx.run_prop(
         &SUB_SET,
